@@ -106,6 +106,9 @@ pub fn frame_set(name: &str) -> Vec<FrameSpec> {
             fcs_width: None,
             dict_tables: None,
         });
+        // raw blocks behind a 1 KiB window whose sizes make a later raw block straddle the physical end of the ring after a
+        // small early drain (the reader fills the two free segments separately)
+        v.push(plain("rawwrap", 0x00, true, vec![Blk::Raw(fresh(1024, 91)), Blk::Raw(fresh(1024, 92)), Blk::Raw(fresh(1024, 93)), Blk::Raw(fresh(525, 94)), Blk::Raw(fresh(560, 95)), Blk::Raw(fresh(10, 96))]));
         // a Dictionary_ID field that is present and zero ("no dictionary", legal): one more header byte to account for
         v.push(FrameSpec { name: "did0".into(), win_desc: Some(0), cks: true, dict_id: Some(0), fcs: None, blocks: vec![Blk::Raw(fresh(9, 26)), Blk::Rle(3, 12)], dict: vec![], rep: [1, 4, 8], fcs_width: None, dict_tables: None });
         // repeat offsets right at the start of a frame: content depends on the initial history (1, 4, 8)
@@ -682,6 +685,13 @@ fn run_program(prog: &[Value], frames: &[FrameInfo], mode: u8, chunk: usize) -> 
     run_program_opts(prog, frames, mode, chunk, true, false)
 }
 
+thread_local! {
+    /// Variant of the replay in which a frame that is abandoned by a Reset is first drained as far as collect() allows and
+    /// the bytes checked (they are gone after the Reset anyway): corruption in buffered, not yet delivered data is not lost
+    /// with the frame.  Only one variant does it, so that state which a Reset fails to clear still shows in the others.
+    static PREDRAIN: std::cell::Cell<bool> = const { std::cell::Cell::new(false) };
+}
+
 /// use_pred = false: no predictions at all (only calls that are legal for the real state, property-level checks only);
 /// want_obs: record an observation per step and do not complete the frame at the end (differential runs)
 fn run_program_opts(prog: &[Value], frames: &[FrameInfo], mode: u8, chunk: usize, use_pred: bool, want_obs: bool) -> Outcome {
@@ -709,7 +719,17 @@ fn run_program_opts(prog: &[Value], frames: &[FrameInfo], mode: u8, chunk: usize
             // without predictions only calls that are legal for the real state are made
             let may_decode = exact || (ex.started && !ex.failed && !ex.saw_last && !ex.used_slice && !ex.dec_ref().is_finished());
             match op {
-                "Reset" => ret = ex.reset(au(0) - 1, au(1)),
+                "Reset" => {
+                    if PREDRAIN.with(|p| p.get()) && ex.started && !ex.failed && mode == 0 {
+                        let v = ex.dec().collect().unwrap_or_default();
+                        ex.delivered.extend(v);
+                        let fr = &frames[ex.fi];
+                        if !fr.content.starts_with(&ex.delivered) {
+                            viol.push(format!("the {} bytes buffered when the frame was abandoned (drained before the Reset) are not a prefix of the frame content", ex.delivered.len()));
+                        }
+                    }
+                    ret = ex.reset(au(0) - 1, au(1))
+                }
                 "Decode" => {
                     if !may_decode {
                         skipped = true;
@@ -974,7 +994,9 @@ pub fn fdexec(args: &[String]) {
         }
         for (mode, chunk) in variants {
             runs += 1;
+            PREDRAIN.with(|p| p.set(mode == 0 && chunk == 0));
             let o = run_program(&prog, &frames, mode, chunk);
+            PREDRAIN.with(|p| p.set(false));
             if let Some((si, d)) = &o.drift {
                 drifted += 1;
                 let s = &prog[*si];
